@@ -36,6 +36,10 @@ HAND = [
      leaf("E", omitzero=True, kind="slice"), leaf("F", omitempty=True)],
     [leaf("A", "k", casing=1), leaf("B", "\u03c3"), leaf("C", "\u01c5", casing=2), leaf("D", "\u03c2", casing=1)],                  # folding beyond ASCII
     [leaf("A", "\u212a"), leaf("B", "K", casing=1), leaf("C", "s"), leaf("D", "\u017f")],
+    # one struct type reached twice at the same depth, with embedded structs of its own (diamond)
+    [embed("L", [embed("M", [embed("Lf", [leaf("Y")]), leaf("X")])]), embed("R", [embed("M", [embed("Lf", [leaf("Y")]), leaf("X")])])],
+    [embed("M1", [embed("Lf", [leaf("Y")]), leaf("X")]), embed("M2", [embed("Lf", [leaf("Y")]), leaf("X")]), leaf("Z")],
+    [embed("M1", [embed("Lf", [leaf("Y", "y")]), leaf("X")]), embed("M2", [embed("Lf", [leaf("Y", "y")]), leaf("X")], ptr=True), leaf("W", "y", casing=1)],
     [leaf("A", kind="zeroer"), leaf("B", omitzero=True, kind="zeroer"), leaf("C", omitempty=True, kind="zeroer"), leaf("D")],   # IsZero method
 ]
 
